@@ -237,6 +237,7 @@ def file_route_table(run):
         ("lea", "(%rax,%rax,2),%rax", ["[%rax+%rax*2]", "%rax"]), ("mov", "0x8(,%rbx,8),%rdx", ["[+%rbx*8+0x8]", "%rdx"]), ("mov", "0x10(%rsp),%rdi", ["[%rsp+0x10]", "%rdi"]),
         ("mov", "%rdi,(%rsi)", ["%rdi", "[%rsi]"]), ("call", "402000 <helper>", ["402000"]), ("jmp", "401010 <main+0x10>", ["401010"]), ("ret", "", [""]),
         ("imul", "$0x3,0x4(%r12,%r12,8),%r9d", ["0x3", "[%r12+%r12*8+0x4]", "%r9d"]), ("push", "%rbp", ["%rbp"]),
+        ("push", "$0x10", ["0x10"]), ("ret", "$0x8", ["0x8"]), ("lea", "0x0(,%rax,8),%rdx", ["[+%rax*8+0x0]", "%rdx"]),
     ]
     lines = ["", "prog:     file format elf64-x86-64", "", "Disassembly of section .text:", "", "0000000000401000 <main>:"]
     want = ""
@@ -246,6 +247,12 @@ def file_route_table(run):
         want += f"{a}::{m},{','.join(norm)},|"
     for nm, text in (("LF", "\n".join(lines) + "\n"), ("CRLF", "\r\n".join(lines) + "\r\n"), ("no_final_newline", "\n".join(lines))):
         got = jasmapi.file_route_stream(text)
+        if nm == "LF":
+            # an address range that contains the immediates' VALUES but no branch target: operands are not reinterpreted
+            got_r = jasmapi.file_route_stream(text, {"config": {"valid_addr_range": {"min": "0x0", "max": "0xff"}}, "pattern": ["zzzz"]})
+            run.count("traces_validated_against_impl")
+            if got_r != want:
+                run.failure("file_route/with_addr_range", f"the operand table with config.valid_addr_range 0x0..0xff (no branch target inside): stream {got_r[:200]!r}... differs from the normal forms", {"kind": "c09_file", "variant": "with_addr_range"})
         run.count("traces_validated_against_impl")
         if got != want:
             k = next((i for i, (x, y) in enumerate(zip(got, want)) if x != y), min(len(got), len(want)))
